@@ -1,1 +1,95 @@
-// harnesses for src/memvid/chunks.rs (child module: sees private items of its parent)
+// Harnesses for src/memvid/chunks.rs.
+#![allow(unused_imports, clippy::all, clippy::pedantic)]
+use super::*;
+use crate::verif_env::*;
+
+#[path = "/verif/harness/playback/chunks.rs"]
+mod playback;
+
+fn ascii_text<const N: usize>() -> [u8; N] {
+    let raw: [u8; N] = kani::any();
+    let mut i = 0;
+    while i < N {
+        kani::assume(raw[i] == b'a' || raw[i] == b'.' || raw[i] == b' ' || raw[i] == b'\n');
+        i += 1;
+    }
+    raw
+}
+
+// C34: the planned ranges partition the text: contiguous from 0 to the
+// character count, each non-empty, and the slices concatenate to the text.
+fn partition<const N: usize>(chunk_chars: usize) {
+    let raw = ascii_text::<N>();
+    let text = unsafe { core::str::from_utf8_unchecked(&raw) };
+    let m = build_chunk_manifest(text, chunk_chars);
+    match &m {
+        Some(man) => {
+            assert!(N > chunk_chars, "[C34] a text not longer than one chunk was split");
+            assert!(!man.chunks.is_empty(), "[C34] chunk plan without chunks");
+            let mut expect_start = 0usize;
+            let mut i = 0;
+            while i < man.chunks.len() {
+                let r = &man.chunks[i];
+                assert!(r.start == expect_start, "[C34] chunk ranges are not contiguous (gap or overlap)");
+                assert!(r.end > r.start, "[C34] empty chunk range");
+                assert!(r.end <= N, "[C34] chunk range beyond the end of the text");
+                let piece = slice_text_range(text, r);
+                assert!(piece.len() == r.end - r.start, "[C34] chunk text length differs from its range");
+                let pb = piece.as_bytes();
+                let mut k = 0;
+                while k < pb.len() {
+                    assert!(pb[k] == raw[r.start + k], "[C34] chunk text differs from the text at its range");
+                    k += 1;
+                }
+                expect_start = r.end;
+                leak(piece);
+                i += 1;
+            }
+            assert!(expect_start == N, "[C34] chunk ranges do not end at the character count (text lost)");
+            kani::cover!(man.chunks.len() >= 2, "split into several chunks");
+        }
+        None => assert!(N <= chunk_chars || chunk_chars == 0, "[C34] a text longer than one chunk was not planned"),
+    }
+    leak(m);
+}
+verif_proof! { [C34]
+    #[kani::unwind(9)]
+    fn c34_partition_6_by_2() { partition::<6>(2); }
+}
+verif_proof! { [C34]
+    #[kani::unwind(9)]
+    fn c34_partition_7_by_3() { partition::<7>(3); }
+}
+
+// the boundary chooser with a SMALL slack (production uses max(chunk/5, 32)):
+// never beyond the text, and never beyond the forward window.
+verif_proof! { [C34]
+    #[kani::unwind(9)]
+    fn c34_choose_boundary_small_slack() {
+        let raw = ascii_text::<7>();
+        let mut chars: Vec<(usize, char)> = Vec::new();
+        let mut i = 0;
+        while i < 7 {
+            chars.push((i, raw[i] as char));
+            i += 1;
+        }
+        chars.push((7, '\0'));
+        let start: usize = kani::any();
+        let target: usize = kani::any();
+        let slack: usize = kani::any();
+        kani::assume(start < target && target <= 7 && slack <= 3);
+        let r = choose_chunk_boundary(&chars, start, target, 7, slack);
+        assert!(r <= 7, "[C34] chunk boundary beyond the end of the text");
+        assert!(r <= core::cmp::min(target + slack, 7), "[C34] chunk boundary beyond the forward window");
+        if r > start {
+            // a boundary before the target must sit right after a newline, a sentence end or whitespace
+            if r < target {
+                let c = raw[r - 1];
+                assert!(c == b'\n' || c == b'.' || c == b' ', "[C34] chunk cut in the middle of a word although no separator was chosen");
+            }
+        }
+        kani::cover!(r > target, "boundary after the target");
+        kani::cover!(r < target && r > start, "boundary before the target");
+        leak(chars);
+    }
+}
